@@ -26,17 +26,116 @@ import (
 	"errors"
 	"fmt"
 	"os"
+	"path/filepath"
 	"runtime/debug"
 	"sort"
 	"strings"
 
 	"github.com/getkin/kin-openapi/openapi3"
+	"github.com/grafana/codejen"
 	"github.com/grafana/cog/verifapi"
 )
 
 func init() {
 	commands["c12-ir"] = c12IR
 	commands["c12-check"] = c12Check
+	commands["c12-emit-ir"] = c12EmitIR
+}
+
+// c12-emit-ir: the IR-BUILT route. One job per line {"id","root","compact","ir":[Schema...]} (the projection format of
+// ir.go, built by the check from a schema term): the schemas are handed to the REAL jsonschema and openapi languages -
+// their compiler passes, then Language.Jennies(config).GenerateFS - without any input parser in between. The emitted files
+// are written below <root>/<language>/ and the IR the jennies consumed is returned.
+type c12EmitJob struct {
+	ID      string `json:"id"`
+	Root    string `json:"root"`
+	Compact bool   `json:"compact"`
+	IR      []any  `json:"ir"`
+}
+
+type c12EmitResult struct {
+	ID    string   `json:"id"`
+	OK    bool     `json:"ok"`
+	Err   string   `json:"err,omitempty"`
+	Panic string   `json:"panic,omitempty"`
+	Files []string `json:"files,omitempty"`
+	IR    []any    `json:"ir,omitempty"`
+}
+
+func c12EmitOne(job c12EmitJob) (res c12EmitResult) {
+	res.ID = job.ID
+	defer func() {
+		if r := recover(); r != nil {
+			res.OK = false
+			res.Panic = fmt.Sprintf("%v\n%s", r, topFrames(string(debug.Stack()), 12))
+		}
+	}()
+	langs := []verifapi.Language{
+		verifapi.NewJSONSchema(verifapi.JSONSchemaConfig{Compact: job.Compact}),
+		verifapi.NewOpenAPI(verifapi.OpenAPIConfig{Compact: job.Compact}),
+	}
+	generated := codejen.NewFS()
+	for _, lang := range langs {
+		schemas, err := unprojSchemas(job.IR) // a fresh copy per language
+		if err != nil {
+			res.Err = "ir: " + err.Error()
+			return res
+		}
+		schemas, err = lang.CompilerPasses().Process(schemas)
+		if err != nil {
+			res.Err = lang.Name() + " passes: " + err.Error()
+			return res
+		}
+		if lang.Name() == "jsonschema" {
+			res.IR = projSchemas(schemas)
+		}
+		jl := lang.Jennies(verifapi.LanguageConfig{Types: true})
+		dir := lang.Name()
+		jl.AddPostprocessors(func(f codejen.File) (codejen.File, error) {
+			f.RelativePath = filepath.Join(dir, f.RelativePath)
+			return f, nil
+		})
+		fs, err := jl.GenerateFS(verifapi.LanguageContext{Schemas: schemas})
+		if err != nil {
+			res.Err = lang.Name() + ": " + err.Error()
+			return res
+		}
+		if err := generated.Merge(fs); err != nil {
+			res.Err = err.Error()
+			return res
+		}
+	}
+	for _, f := range generated.AsFiles() {
+		res.Files = append(res.Files, f.RelativePath)
+	}
+	sort.Strings(res.Files)
+	if err := generated.Write(context.Background(), job.Root); err != nil {
+		res.Err = "write: " + err.Error()
+		return res
+	}
+	res.OK = true
+	return res
+}
+
+func c12EmitIR(args []string) int {
+	in := bufio.NewScanner(os.Stdin)
+	in.Buffer(make([]byte, 1<<20), 1<<26)
+	out := bufio.NewWriter(os.Stdout)
+	defer out.Flush()
+	enc := json.NewEncoder(out)
+	enc.SetEscapeHTML(false)
+	for in.Scan() {
+		if len(bytes.TrimSpace(in.Bytes())) == 0 {
+			continue
+		}
+		var job c12EmitJob
+		if err := json.Unmarshal(in.Bytes(), &job); err != nil {
+			fmt.Fprintln(os.Stderr, "c12-emit-ir: bad job:", err)
+			return 2
+		}
+		_ = enc.Encode(c12EmitOne(job))
+	}
+	return 0
 }
 
 type c12IRJob struct {
